@@ -225,8 +225,10 @@ def run(ctx, F):
         def hook(body, bi, t, ev, seen=seen, root=root):
             if body is not root:
                 return
-            cn = mir.callee_name(t) or ""
-            if re.search(r"Numeric>::new$|css::value::Value>::scalar$|functions::color::percentage$", cn) and t["args"]:
+            # a sink is any call that turns an f64 into something that is not an f64 / bool (Numeric::new,
+            # Value::scalar, percentage, or a helper of the same kind)
+            tys = t.get("arg_tys") or []
+            if t["args"] and tys and tys[0] == "f64" and str(t.get("dest_ty")) not in ("f64", "bool", "std::cmp::Ordering", "std::option::Option<std::cmp::Ordering>"):
                 seen.append((bi, ev(t["args"][0])))
         A2.call_hook = hook
         A2.run(root)
